@@ -290,3 +290,59 @@ func (fc *fnCtx) goStmt(st *State, fr *frame, ins *ssa.Go) {
 
 func (fc *fnCtx) blockingCall(st *State, fr *frame, site string, spec *effSpec, recv *Val, args []Val) {
 }
+
+// lockInvariant (interference pass). After Lock: everything the mutex guards may have been changed by other
+// threads since this thread last looked — the guarded fields get fresh values constrained only by the type's
+// lock invariant. Before Unlock: the lock invariant must hold again (obligation).
+func (fc *fnCtx) lockInvariant(st *State, fr *frame, call *ssa.Call, site string, release bool) {
+	c := call.Common()
+	if len(c.Args) == 0 {
+		return
+	}
+	fa, ok := c.Args[0].(*ssa.FieldAddr)
+	if !ok {
+		return
+	}
+	named, ok := derefNamed(fa.X.Type())
+	if !ok {
+		return
+	}
+	pkg := ""
+	if named.Obj().Pkg() != nil {
+		pkg = named.Obj().Pkg().Name()
+	}
+	ts := fc.e.contracts.Types[pkg+"."+named.Obj().Name()]
+	if ts == nil {
+		return
+	}
+	stt := named.Underlying().(*types.Struct)
+	mutexField := stt.Field(fa.Field).Name()
+	owner := fc.val(st, fa.X)
+	if !release {
+		for i := 0; i < stt.NumFields(); i++ {
+			f := stt.Field(i)
+			if ts.GuardedBy[f.Name()] != mutexField {
+				continue
+			}
+			rn := fieldRegion(named.Origin(), f.Name())
+			srt := regionArraySort(sortOfType(f.Type()))
+			cur := fc.region(st, rn, srt)
+			h := fc.declare(st, "interf", sortOfType(f.Type()).SMT())
+			fc.setRegion(st, rn, srt, store(cur, owner.T, h))
+		}
+	}
+	sc := fc.specCtxFor(st, fr)
+	sc.vars["this"] = Val{T: owner.T, S: SU, GT: fa.X.Type()}
+	for _, inv := range ts.LockInv {
+		name := fc.oblName(fr, fmt.Sprintf("lockinv%d@%s", inv.Ord, site))
+		g := fc.evalBoolClause(sc, inv, name)
+		if g == "" {
+			continue
+		}
+		if release {
+			fc.emit(st, name, "lockinv", inv.Text, clauseLoc(inv), g, inv.Tags)
+		} else {
+			st.pc = append(st.pc, g)
+		}
+	}
+}
